@@ -1,7 +1,7 @@
 (* C15: the statements of Props/C15.v in their final form. *)
 From Coq Require Import List NArith Arith Bool Lia.
 From RareV Require Import Base.Hex Model.Follow Proofs.FollowBase Proofs.FollowNotify Proofs.FollowPoll
-  Proofs.FollowRefute Proofs.FollowCheck.
+  Proofs.FollowRefute Proofs.FollowCheck Proofs.FollowLive.
 Import ListNotations.
 Local Open Scope nat_scope.
 
@@ -65,3 +65,65 @@ End P.
 
 Lemma m_ended_silent_poll reopen s l s' : ppcs s = PEnded -> pstep reopen s l s' -> is_env l = true.
 Proof. intros He St. inversion St; subst; try congruence. eapply estep_env_label; eauto. Qed.
+
+(* ------------------------------------------------------------------ eventual delivery (Proofs/FollowLive.v) *)
+Definition ndrained c0 tail (s : nstate) : Prop := pre_of c0 tail ++ ndel s = all (nenv s).
+Definition pdrained c0 tail (s : pstate) : Prop := pre_of c0 tail ++ pdel s = all (penv s).
+
+Lemma zinv_run reopen c0 tail tr s : nreach reopen c0 tail tr s -> ZInv reopen s.
+Proof.
+  intros R. unfold nreach in R. remember (ninit c0 tail) as s0 eqn:E. induction R as [|s0 tr s1 l s2 R IH Ok St].
+  - subst. intros _ i off F. unfold ninit, fd0 in F. cbn in F. destruct c0; inversion F. reflexivity.
+  - eapply zinv_step; eauto.
+Qed.
+
+Section NL.
+Variables (reopen : bool) (c0 : option bytes) (tail : bool) (tr : list label) (s : nstate).
+Hypothesis R : nreach reopen c0 tail tr s.
+Let I := ninv_run reopen c0 tail tr s R.
+
+Lemma m_measure_notify : forall l s', is_env l = false -> nstep reopen true s l s' ->
+  nmu (pre_of c0 tail) s' < nmu (pre_of c0 tail) s.
+Proof. intros l s'. apply nmeasure with (reopen := reopen). exact I. Qed.
+Lemma m_progress_notify : forall off, nfd s = Some (ino (nenv s), off) -> present (nenv s) = true ->
+  off < length (curc (nenv s)) -> npcs s <> NEnded -> exists l s', is_env l = false /\ nstep reopen true s l s'.
+Proof. intros off. apply nprogress with (pre := pre_of c0 tail). exact I. Qed.
+Lemma m_eventual_notify : fd_current (nenv s) (nfd s) = true -> npcs s <> NEnded ->
+  must (nstep reopen true) (ndrained c0 tail) (nmu (pre_of c0 tail) s) s.
+Proof.
+  intros Fc Ne. apply nmust with (reopen := reopen); [apply Nat.le_refl|exact I|eapply zinv_run; eauto|split; assumption].
+Qed.
+Lemma m_eventual_reopen_notify : reopen = true -> nfd s = None -> present (nenv s) = true ->
+  sigW s = true \/ In EvWrite (queue s) \/ In EvCreate (queue s) ->
+  must (nstep reopen true) (ndrained c0 tail) (nmu (pre_of c0 tail) s) s.
+Proof.
+  intros Ro F Pp Wk. apply ncold_must with (reopen := reopen); [apply Nat.le_refl|exact I|].
+  repeat split; auto. intros X. destruct (iE _ _ _ I X) as [Y _]. congruence.
+Qed.
+End NL.
+
+Section PL.
+Variables (reopen : bool) (c0 : option bytes) (tail : bool) (tr : list label) (s : pstate).
+Hypothesis new_ok : c0 = None -> reopen = true.
+Hypothesis R : preach reopen c0 tail tr s.
+Let I := pinv_run reopen c0 tail new_ok tr s R.
+
+Lemma m_measure_poll : forall off l s', pfd s = Some (ino (penv s), off) -> present (penv s) = true ->
+  off < length (curc (penv s)) -> is_env l = false -> pstep reopen s l s' ->
+  pmu (pre_of c0 tail) s' < pmu (pre_of c0 tail) s.
+Proof. intros off l s'. apply pmeasure. exact I. Qed.
+Lemma m_progress_poll : forall off, pfd s = Some (ino (penv s), off) -> present (penv s) = true ->
+  off < length (curc (penv s)) -> ppcs s <> PEnded -> exists l s', is_env l = false /\ pstep reopen s l s'.
+Proof. intros off. apply pprogress. Qed.
+Lemma m_eventual_poll : fd_current (penv s) (pfd s) = true -> ppcs s <> PEnded ->
+  must (pstep reopen) (pdrained c0 tail) (pmu (pre_of c0 tail) s) s.
+Proof. intros Fc Ne. apply pmust; [apply Nat.le_refl|exact I|split; assumption]. Qed.
+Lemma m_eventual_reopen_poll : reopen = true -> fd_current (penv s) (pfd s) = false -> present (penv s) = true ->
+  0 < size (penv s) -> size (penv s) < rb s \/ rb s = 0 ->
+  pre_of c0 tail ++ pdel s = concat (past (penv s)) ->
+  must (pstep reopen) (pdrained c0 tail) (cw s + 4 * undel (pre_of c0 tail) (penv s) (pdel s)) s.
+Proof.
+  intros Ro Fc Pp Sz Lt Dl. apply pcold_must; [apply Nat.le_refl|exact I|].
+  repeat split; auto. intros X. destruct (qE _ _ _ I X) as [Y _]. congruence.
+Qed.
+End PL.
